@@ -58,6 +58,9 @@ impl Check for C19 {
         o.max_ops = 6;
         o.ext_types = true;
         o.nasty_strings = true;
+        // SQL reads DECIMAL(p,s) as NUMERIC(p,s): a DataType::Decimal column (table API only)
+        // cannot come back from a dump as itself, and the property does not ask for that
+        o.no_type.insert("decimal".to_string());
         let (db, excluded) = gen_db(t, &o);
         Case { db, excluded }
     }
